@@ -13,3 +13,11 @@ EXPLANATION = ('Proved: node-kind classification (content string = NavigableStri
 LEVEL_TEXT = EXPLANATION
 TECHNIQUE = 'VC-proved classification contracts + bounded evaluation of the text-content contracts'
 MUSTFAIL = False
+
+
+def _bt_value_lists(ctx):
+    from pyvc import bounded_text
+    return bounded_text.value_lists(ctx)
+
+
+BOUNDED = BOUNDED + [_bt_value_lists]
